@@ -1120,7 +1120,10 @@ class Interp:
                 if k in oldL:
                     f.L[k] = self.gen_value(st, oldL[k], f.L[k], ctx)
         invs = []
-        for (a, old, new) in (changed if self.opts.loop_candidates else []):
+        banned = set(prev.get('banned', ())) if prev is not None else set()
+        if prev is not None:
+            banned |= set(prev.get('failed', ()))       # candidates refuted by an iteration are not proposed again
+        for slot, (a, old, new) in enumerate(changed if self.opts.loop_candidates else []):
             ap = patom(a)
             seen = set()
             entry = []
@@ -1129,16 +1132,19 @@ class Interp:
                     entry = [st.norm(old.p)]        # the value at loop entry itself (monotonicity v <= v_entry / v >= v_entry)
             except Infeasible:
                 entry = []
-            for w in entry + stable:
+            for wi, w in enumerate(entry + stable):
                 fw = pfreeze(w)
                 if fw in seen:
                     continue
                 seen.add(fw)
                 for rel in (NONPOS, NONNEG):
+                    key = (slot, 'entry' if (entry and wi == 0) else fw, rel)
+                    if key in banned:
+                        continue
                     try:
                         if st.sign(padd(old.p, w, -1)) <= rel and st.sign(padd(new.p, w, -1)) <= rel:
                             st.assume(padd(ap, w, -1), rel)
-                            invs.append((a, w, rel))
+                            invs.append((a, w, rel, key))
                     except Infeasible:
                         pass
         atoms_ = set(a for a, _, _ in changed)
@@ -1147,7 +1153,7 @@ class Interp:
             atoms_ |= prev['atoms']         # atoms generalised in earlier rounds stay generalised
             for a, b in prev['bounds'].items():
                 bounds_.setdefault(a, b)
-        return {'snap': self.snapshot(st), 'atoms': atoms_, 'invs': invs, 'bounds': bounds_}
+        return {'snap': self.snapshot(st), 'atoms': atoms_, 'invs': invs, 'bounds': bounds_, 'banned': banned, 'failed': set()}
 
     def gen_value(self, st, old, new, ctx):
         if isinstance(old, Int) and isinstance(new, Int):
@@ -1200,16 +1206,18 @@ class Interp:
             for k, gv in gL.items():
                 if k in f.L and not self.sub_value(st, gv, f.L[k], gen, binding):
                     return False
-        for (a, w, rel) in gen['invs']:
+        ok = True
+        for (a, w, rel, key) in gen['invs']:
             cur = binding.get(a)
             if cur is None:
                 continue
             try:
                 if not st.sign(padd(cur, w, -1)) <= rel:
-                    return False
+                    gen['failed'].add(key)
+                    ok = False
             except Infeasible:
                 return False
-        return True
+        return ok
 
     def sub_value(self, st, gv, cv, gen, binding):
         if gv is HAVOC:
